@@ -44,6 +44,17 @@ func genC19(r *core.Rand, env *core.Env, run int) *Scenario {
 		// deadline, never for ever: leave enough simulated time for that
 		sc.Knobs.IdleBudget = 120
 	}
+	// a share of the runs: subscribed connections keep issuing commands whose
+	// replies are large arrays (several KB) while messages are pushed to them; a
+	// reply and a push must never be woven into each other on the wire
+	bigReplies := r.Bool(0.3)
+	if bigReplies {
+		a := bs("rpush", c19BigList)
+		for i := 0; i < c19BigN; i++ {
+			a = append(a, B(c19BigElem(i)))
+		}
+		sc.Knobs.Preload = append(sc.Knobs.Preload, a)
+	}
 	for i := 0; i < ns; i++ {
 		p := ClientProg{Name: fmt.Sprintf("s%d", i), Role: "subscriber", Pipeline: 1, WriteYield: true}
 		a := bs("subscribe")
@@ -55,6 +66,11 @@ func genC19(r *core.Rand, env *core.Env, run int) *Scenario {
 			a = append(a, B(perm[j]))
 		}
 		p.Steps = append(p.Steps, Step{Kind: "cmd", Args: a})
+		if bigReplies {
+			for j := 0; j < 1+r.Intn(3); j++ {
+				p.Steps = append(p.Steps, Step{Kind: "cmd", Args: bs("lrange", c19BigList, "0", "-1")})
+			}
+		}
 		if stalls && i == 0 {
 			// stops reading after its subscription was confirmed; tiny socket buffer
 			p.OutLimit = 64
@@ -85,6 +101,12 @@ func genC19(r *core.Rand, env *core.Env, run int) *Scenario {
 	return sc
 }
 
+const c19BigList, c19BigN = "biglist", 70
+
+func c19BigElem(i int) string {
+	return fmt.Sprintf("element-%03d-%s", i, strings.Repeat("x", 60+i%17))
+}
+
 type pubRec struct {
 	ch, payload     string
 	invoke, ret     int64
@@ -94,6 +116,25 @@ type pubRec struct {
 }
 
 func judgeC19(sc *Scenario, rr *RunResult, env *core.Env) (string, string) {
+	// replies to the commands of subscribed connections (the big list never changes)
+	for ci, c := range rr.Clients {
+		if c.prog.Role != "subscriber" {
+			continue
+		}
+		for _, op := range c.ops {
+			if !op.Done || len(op.Args) == 0 || !strings.EqualFold(string(op.Args[0]), "lrange") {
+				continue
+			}
+			rr.Probes["big-reply-on-subscribed-connection"]++
+			ok := op.Reply.Kind == rd.Array && len(op.Reply.Arr) == c19BigN
+			for i := 0; ok && i < c19BigN; i++ {
+				ok = op.Reply.Arr[i].StringLike() && string(op.Reply.Arr[i].Str) == c19BigElem(i)
+			}
+			if !ok {
+				return "C19/reply-and-push-interleaved", fmt.Sprintf("subscriber %d: the reply to %s is not the list it asked for (a pushed message was woven into it?): %s", ci, cmdString(op.Args), truncate(op.Reply.String(), 300))
+			}
+		}
+	}
 	var pubs []pubRec
 	for ci, c := range rr.Clients {
 		if c.prog.Role != "publisher" {
